@@ -15,6 +15,42 @@ def is_matrix_free(m):
     return "compute_jacvec_product" in m.cls.methods or "apply_linear" in m.cls.methods
 
 
+class _Sig:
+    def __init__(self, sigma):
+        self.sigma = sigma
+
+
+def is_peeled(m, mname):
+    for r in m.runs.get(mname, []):
+        if any("[0]" in k for k in r.sigma):
+            return True
+        for e in r.events:
+            if e.kind == "store" and e.cell and any("[0]" in str(x) for x in e.cell[1:]):
+                return True
+    return False
+
+
+def runs_for_pair(m, mname, sv, names):
+    """Runs of ``mname`` that describe the same surface as a pair declared in
+    setup valuation ``sv`` -- yields (run, renamed names).  A pair declared in
+    the peeled first iteration ([0]) is compared with an unpeeled method's
+    generic run whose per-surface atoms, renamed to the first surface, agree."""
+    first = any("[0]" in (n or "") for n in names)
+    peeled = is_peeled(m, mname)
+    for r in m.runs.get(mname, []):
+        if r.final is None:
+            continue
+        if first and not peeled:
+            ren = {k.replace("[i]", "[0]"): v for k, v in r.sigma.items()}
+            if any(k in sv.sigma and sv.sigma[k] != v for k, v in ren.items()):
+                continue
+            yield r, tuple((n or "").replace("[0]", "[i]") for n in names)
+        else:
+            if not r.compatible(sv.sigma):
+                continue
+            yield r, tuple(names)
+
+
 def out_deps(run, implicit):
     """{output template: set of sources} at the end of an evaluation run."""
     res = {}
@@ -71,8 +107,9 @@ def p1_p2(chk, repo, tier):
                             continue
                         if hit:
                             chk.ok("P1", key, c.where, "declared")
-                            for h in hit:
-                                real_pairs.add(h)
+                            exact = [h for h in hit if h[0] == o and h[1] == nm]
+                            for h in exact or hit:
+                                real_pairs.add((o, nm, h))
                         else:
                             # is the name an input at all under this valuation?
                             tbl = dict(sv.inputs, **sv.outputs)
@@ -84,12 +121,12 @@ def p1_p2(chk, repo, tier):
                 if mf or lin_name not in m.runs and not any(True for _ in ()):  # no lin method: only val=/method= pairs allowed
                     pass
                 lin_runs = [rl for rl in m.runs.get(lin_name, []) if rl.compatible(sig) and rl.final is not None]
-                for (o, w), decls in sorted(pairs.items()):
-                    key = "%s: partials[%s, %s]" % (c.name, norm_name(o), norm_name(w))
+                same_peel = is_peeled(m, evm) == is_peeled(m, lin_name)
+                for (odn, wdn, pair) in sorted(real_pairs):
+                    decls = pairs[pair]
+                    key = "%s: partials[%s, %s]" % (c.name, norm_name(odn), norm_name(wdn))
                     analytic = [d for d in decls if d.val is None and d.method is None and d.dependent is None]
                     if not analytic or len(analytic) != len(decls):
-                        continue
-                    if (o, w) not in real_pairs:
                         continue
                     if mf:
                         continue
@@ -99,9 +136,10 @@ def p1_p2(chk, repo, tier):
                     for rl in lin_runs:
                         stored = False
                         for e in rl.events:
-                            if e.kind == "store" and e.cell and e.cell[0] == "partials" and tmpl_match(e.cell[1], o) and tmpl_match(e.cell[2], w):
-                                stored = True
-                                break
+                            if e.kind == "store" and e.cell and e.cell[0] == "partials":
+                                if (e.cell[1] == odn and e.cell[2] == wdn) or (not same_peel and tmpl_match(e.cell[1], odn) and tmpl_match(e.cell[2], wdn)):
+                                    stored = True
+                                    break
                         s2 = merged(sig, rl.sigma)
                         if stored:
                             chk.ok("P2", key, where(c, decls[0].lineno), "stored")
@@ -230,3 +268,72 @@ def unparse_test(e):
 def run(chk, repo, tier):
     p1_p2(chk, repo, tier)
     p4(chk, repo, tier)
+    p3(chk, repo, tier)
+
+
+# --------------------------------------------------------------------------- P3
+def p3(chk, repo, tier):
+    from ..domains import Lin
+    from ..model import component_model
+
+    chk.rule("P3", "a pair declared with a constant Jacobian (val=) is affine in that input with configuration-only coefficients under every valuation (LIN domain: sums, slices, reshapes, reductions, products with configuration values)", min_decided=40)
+    for c in repo.components():
+        if c.name in POSTPROCESSING or c.name in NEVER_INSTANTIATED:
+            continue
+        m0 = component_model(repo, c)
+        has_val = any(d.val is not None for sv in m0.setup_views for d in sv.decls)
+        if not has_val:
+            continue
+        m = component_model(repo, c, domains=(Lin,))
+        implicit = c.kind == "implicit"
+        evm = "apply_nonlinear" if implicit else "compute"
+        role = "res" if implicit else "out"
+        peeled_eval = any("[0]" in k for rc in m.runs.get(evm, []) for k in rc.sigma) or any(isinstance(oid, tuple) and oid[0] == role and "[0]" in str(oid[1]) for rc in m.runs.get(evm, []) if rc.final is not None for oid in rc.final.heap)
+        for sv in m.setup_views:
+            for (o, w), decls in sorted(sv.declared_pairs().items()):
+                vd = [d for d in decls if d.val is not None]
+                if not vd:
+                    continue
+                key = "%s: val= partial d(%s)/d(%s)" % (c.name, norm_name(o), norm_name(w))
+                wh = where(c, vd[0].lineno)
+                ex = P3_EXEMPT.get((c.name, o, w))
+                if ex:
+                    chk.info("P3", key, wh, "exempt: " + ex)
+                    continue
+                first = "[0]" in o + w
+                for rc in m.runs.get(evm, []):
+                    if rc.final is None:
+                        continue
+                    # the same surface must be meant on both sides: a pair declared in the
+                    # peeled first iteration is compared with the generic evaluation run
+                    # whose per-surface atoms, renamed to the first surface, agree
+                    if first and not peeled_eval:
+                        ren = {k.replace("[i]", "[0]"): v_ for k, v_ in rc.sigma.items()}
+                        if any(k in sv.sigma and sv.sigma[k] != v_ for k, v_ in ren.items()):
+                            continue
+                        on, wn = o.replace("[0]", "[i]"), w.replace("[0]", "[i]")
+                    else:
+                        if not rc.compatible(sv.sigma):
+                            continue
+                        on, wn = o, w
+                    sig = merged(sv.sigma, rc.sigma)
+                    lin = None
+                    found = False
+                    for oid, ob in rc.final.heap.items():
+                        if isinstance(oid, tuple) and oid[0] == role and oid[1] == on:
+                            found = True
+                            dd = ob.dom.get("LIN", {})
+                            for k, cl in dd.items():
+                                kind, _, nm = k.partition(":")
+                                if nm == wn and (kind == "in" or (kind == "out" and implicit)):
+                                    lin = cl if lin is None or cl == "N" else lin
+                    if not found:
+                        chk.undecided("P3", key, wh, "output not stored under %s" % sig_txt(sig))
+                    elif lin is None:
+                        chk.undecided("P3", key, wh, "no dependence found (constant partial of an independent pair)")
+                    elif lin == "C":
+                        chk.ok("P3", key, wh, "affine with configuration-only coefficient")
+                    else:
+                        chk.violation("P3", key, wh, "declared with a constant Jacobian (val=) but %s is not affine in '%s' with input-independent coefficients under %s: the framework keeps using the constant" % (evm, w, sig_txt(sig)))
+
+
